@@ -167,6 +167,13 @@ func compareInt(a, b int) int {
 
 // parseNum returns the integer value and true if s is a valid number, otherwise 0 and false
 func parseNum(s string) (int, bool) {
+	// Only identifiers made of digits alone are numeric; "-5" is an
+	// alphanumeric identifier (a leading hyphen is not a sign).
+	for i := 0; i < len(s); i++ {
+		if s[i] < '0' || s[i] > '9' {
+			return 0, false
+		}
+	}
 	if num, err := strconv.Atoi(s); err == nil {
 		return num, true
 	}
